@@ -39,6 +39,8 @@ func c16(tier string) int {
 		{Name: "pool-busy", Params: "w=1,k=3,s=1,l=1", MaxBound: 3},
 		{Name: "pool-busy", Params: "w=1,k=4,s=2,l=0", MaxBound: b},
 		{Name: "pool-busy", Params: "w=1,k=1,s=1,l=0", MaxBound: 99, Label: "pool-busy-unbounded"},
+		{Name: "pool-busy", Params: "w=2,k=5,s=1,l=1", MaxBound: 1, Label: "pool-busy-two-workers"},
+		{Name: "pool-restart", Params: "w=2", MaxBound: 1, Label: "pool-restart-two-workers"},
 	}
 	if tier == "thorough" {
 		items = append(items,
